@@ -197,6 +197,16 @@ def main_for(chk: Check, pid: str, models: bool = True):
                    | {"snaps[0][:3]": r["snaps"][0][:3], "evo[-1][:3]": r["evo"][-1][:3], "best": r["best"],
                       "ptab[:3]": r["ptab"][:3], "calls_per_phase": [len(c) for c in r["calls"]], "task": r["spec"]["desc"]["vars"]})
     canaries(chk, pid, ok)
+    if pid == "C06":
+        # second half of the property: an invalid call is rejected up front (Instance histories with OptimizeBadCall,
+        # Optimize without configuration, SetConfig with a bad dictionary), replayed on all 84 classes
+        from . import instance
+        keep = (chk.traces, chk.evaluations, set(chk.distinct), list(chk.samples))
+        instance.main_for(chk, "C06")
+        chk.traces += keep[0]
+        chk.evaluations += keep[1]
+        chk.distinct |= keep[2]
+        chk.samples = keep[3] + chk.samples[:2]
     chk.assumptions += [
         "alpha: positions -> ids (exact value interning), costs -> signed dense ranks (order/equality/negation preserving), "
         "coordinates -> membership classes computed from the task DESCRIPTOR (never from Task.get_bounds/is_valid_solution)",
